@@ -24,6 +24,7 @@ type endpoint struct {
 	sendSync  func(req ocpp.Request) (ocpp.Response, error) // client roles only
 	stop      func()
 	start     func()
+	errors    func() <-chan error
 	jclient   *ocppj.Client
 	jserver   *ocppj.Server
 	onConn    func(id string) // application-level handlers (optional), set before start
@@ -106,6 +107,7 @@ func newEndpoint(ver, role string, o epOpts) *endpoint {
 			e.sendAsync = func(_ string, req ocpp.Request, cb func(ocpp.Response, error)) error { return cp.SendRequestAsync(req, cb) }
 			e.sendSync = cp.SendRequest
 			e.stop = cp.Stop
+			e.errors = cp.Errors
 			e.start = func() { _ = cp.Start("ws://fake") }
 			if !o.noStart {
 				_ = cp.Start("ws://fake")
@@ -116,6 +118,7 @@ func newEndpoint(ver, role string, o epOpts) *endpoint {
 			e.sendAsync = func(_ string, req ocpp.Request, cb func(ocpp.Response, error)) error { return cs.SendRequestAsync(req, cb) }
 			e.sendSync = cs.SendRequest
 			e.stop = cs.Stop
+			e.errors = cs.Errors
 			e.start = func() { _ = cs.Start("ws://fake") }
 			if !o.noStart {
 				_ = cs.Start("ws://fake")
@@ -147,6 +150,7 @@ func newEndpoint(ver, role string, o epOpts) *endpoint {
 			}
 			e.sendAsync = cs.SendRequestAsync
 			e.stop = cs.Stop
+			e.errors = cs.Errors
 			e.start = func() { go cs.Start(0, "/"); waitRunning(d) }
 			if !o.noStart {
 				go cs.Start(0, "/")
@@ -168,6 +172,7 @@ func newEndpoint(ver, role string, o epOpts) *endpoint {
 			}
 			e.sendAsync = cs.SendRequestAsync
 			e.stop = cs.Stop
+			e.errors = cs.Errors
 			e.start = func() { go cs.Start(0, "/"); waitRunning(d) }
 			if !o.noStart {
 				go cs.Start(0, "/")
